@@ -743,6 +743,26 @@ class C10(ClientProp):
                     ops.append({"op": "get_schedules", "a": {"zone": r2}, "tick": later,
                                 "replies": [login(rng), {"t": "listing", "seed": rng.randrange(1 << 30)}]})
                     out.append(one(rng, 1, ops, zone=z, t0=float(now) + rng.choice(SECOND_OFFSETS)))
+        # create, delete, create again, list: the device keeps its schedules in slots (lowest free slot first), a deleted one is gone
+        for z in zones[:3]:
+            now = local_instant(z, 2026, 6, 15, 10, 15)
+            r2 = zone_rules(z, now, span_days=5)
+            for _ in range(ctx.pick(20, 300)):
+                ops, live = [], []
+                for _step in range(rng.randrange(3, 10)):
+                    if live and rng.random() < 0.4:
+                        sid = rng.choice(live)
+                        live.remove(sid)
+                        ops.append(op1(rng, "delete_schedule", {"slot": sid}))
+                    elif len(live) < 8:
+                        a = sched_args(rng, z, now, rng.choice(["ok", "ok", "list"]))
+                        a["zone"] = r2
+                        ops.append(op1(rng, "create_schedule", a))
+                        live.append(next(i for i in range(9) if i not in live))
+                    if rng.random() < 0.35:
+                        ops.append({"op": "get_schedules", "a": {"zone": r2}, "replies": [login(rng), {"t": "listing", "seed": rng.randrange(1 << 30)}]})
+                ops.append({"op": "get_schedules", "a": {"zone": r2}, "replies": [login(rng), {"t": "listing", "seed": rng.randrange(1 << 30)}]})
+                out.append(one(rng, 1, ops, zone=z, t0=float(now) + rng.choice(SECOND_OFFSETS)))
         # listings taken after 2038-01-19 (the 32-bit fields hold instants up to 2106): records around "now" and records that
         # straddle the 2^31 boundary seen from a host in January 2038
         for z in zones[:4]:
